@@ -72,6 +72,8 @@ fn calls_of_dump(d: &str) -> Option<u64> {
 }
 
 fn observe(c: &Case) -> Obs {
+    // "no limit" is always reached by lifting a small limit: the unlimited reference result must not depend on an earlier setting
+    if c.lim.is_none() { set_limit(Some(2)); }
     set_limit(c.lim);
     pest::set_error_detail(c.det);
     let cx = Ctx::new(&c.env, BUDGET);
@@ -323,6 +325,10 @@ fn sweep(base: &Case, gram: Option<&Gram>, out: &mut Out) {
     let o0 = observe(&c0);
     out.line(&c0, &o0);
     out.st.sweeps += 1;
+    if is_limit_error(&o0.outcome) || o0.text.contains("cl=Some(") {
+        out.st.violations += 1;
+        out.contract(&c0, &format!("C12-lift with no call limit set (set_call_limit(None) after an earlier set_call_limit(Some(2))) the parse still runs under a limit: `{}`", o0.text));
+    }
     if o0.outcome == "Diverged" { out.st.diverged += 1; return; }
     if o0.outcome == "Panic" { out.st.unlimited_panics += 1; }
     let gtxt = gram.map(|g| format!(" grammar=`{}`", g.text)).unwrap_or_default();
